@@ -27,7 +27,8 @@ META = {
     "text": "depth-first (unbuffered), rc-first and random-order strategies of the abstract machine produce the same goals, edges, "
             "well-founded values, probabilities and must-reject verdict whenever they terminate (for all programs, queries, fuel, "
             "sources of randomness). The real modes are compared with the default engine on the corpus and on generated programs: "
-            "reported instances, probabilities (1e-9), accept/reject and error class, lists as multisets.",
+            "reported instances, probabilities (1e-9), accept/reject and error class, lists as multisets."
+            " Every strategy function terminates within the explicit bound of C03, so the agreement theorems also hold unconditionally (`_total` forms).",
     "note": "The unbuffered branches of EvalOr/EvalDefine, cycle detection and findall of the real engine are not modelled; "
             "the tie is sampled and on the pinned tree it exposes genuine disagreements (known findings by mode + symptom class).",
 }
